@@ -88,6 +88,43 @@ def h_mps_numeric(V, family, N, seed):
         s_got = s_got[s_got > 1e-12]
         ok = ok and len(s_ref) == len(s_got) and bool(np.allclose(s_ref, s_got, atol=1e-9))
     V.check('Schmidt-values-equal-the-singular-values-of-the-dense-bipartition', ok)
+    ent2 = psi.get_entropy(alpha=2)
+    ok1 = ok2 = len(ent) == N + 1 and len(ent2) == N + 1
+    for k in range(N + 1):
+        pr = np.linalg.svd(vn.reshape(d ** k, -1), compute_uv=False) ** 2
+        pr = pr[pr > 1e-12]
+        ok1 = ok1 and abs(float(ent[k]) + float(np.sum(pr * np.log2(pr)))) <= 1e-8
+        ok2 = ok2 and abs(float(ent2[k]) + float(np.log2(np.sum(pr ** 2)))) <= 1e-8
+    V.check('entropies-(von-Neumann,base-2)-equal-those-of-the-dense-bipartitions', bool(ok1))
+    V.check('Renyi-2-entropies-equal-those-of-the-dense-bipartitions', bool(ok2))
+    # norm() of a state with a norm factor and unnormalised site tensors; it does not modify the state
+    chi = 2.5 * psi.copy()
+    V.check('norm()-is-the-norm-of-the-dense-state', abs(float(chi.norm()) - 2.5 * np.linalg.norm(v)) <= 1e-9 * max(1.0, np.linalg.norm(v))
+            and close(dense_in_space(ops, chi), 2.5 * v))
+    # is_canonical says no for a state that is not canonical in the direction asked
+    phi = psi.copy()
+    phi.canonize_(to='first')
+    V.check('is_canonical-distinguishes-the-directions', bool(phi.is_canonical(to='first', tol=1e-9)) and (N == 1 or not bool(phi.is_canonical(to='last', tol=1e-9))))
+    # each step of a sweep keeps the state: orthogonalize_site_ + absorb_central_ in both directions, norm carried by the factor
+    for to in ('last', 'first'):
+        phi = 1.3 * psi.copy()
+        okk = True
+        for n in phi.sweep(to=to):
+            phi.orthogonalize_site_(n, to=to, normalize=False)
+            phi.absorb_central_(to=to)
+            okk = okk and close(dense_in_space(ops, phi), 1.3 * v) and phi.pC is None
+        V.check(f'orthogonalize_site_+absorb_central_(to={to},normalize=False)-keep-the-state-at-every-step', bool(okk))
+    # MPO (two physical legs): canonical forms keep the operator; truncation reports the distance in the Frobenius norm
+    for to in ('first', 'last'):
+        G = H.copy()
+        G.canonize_(to=to, normalize=False)
+        V.check('MPO:canonize_(normalize=False)-keeps-the-operator', close(dense_in_space(ops, G), Hm) and bool(G.is_canonical(to=to, tol=1e-9)))
+    G = H.copy()
+    G.canonize_(to='last', normalize=False)
+    discH = G.truncate_(to='first', opts_svd={'D_total': 2}, normalize=False)
+    Gm = dense_in_space(ops, G)
+    V.check('MPO:truncate_-reports-the-relative-distance-to-the-truncated-operator', abs(float(discH) - np.linalg.norm(Hm - Gm) / np.linalg.norm(Hm)) <= 1e-7)
+    V.check('MPO:norm()-is-the-Frobenius-norm', abs(float(H.norm()) - np.linalg.norm(Hm)) <= 1e-9 * max(1.0, np.linalg.norm(Hm)))
     # ---- zipper / compression without truncation reproduce the exact product -----------------------------------------
     want = Hm @ v
     z = mps.zipper(H, psi, opts_svd={'D_total': 10 ** 6, 'tol': 1e-14}, normalize=False)
